@@ -150,6 +150,7 @@ theorem bboxOf_mono (h : Ctx.Incl c c') (hlen : c.elems.length ≤ c'.elems.leng
     refine Le.bind (target_mono h _ _ e (by omega)) (fun t _ => ?_)
     refine Le.bind_same _ (fun b => ?_)
     refine Le.bind_same _ (fun b => ?_)
+    refine Le.bind_same _ (fun b => ?_)
     split
     · split
       · exact Le.refl _
